@@ -7,9 +7,14 @@ import (
 	"bytes"
 	"encoding/json"
 	"fmt"
+	"os"
 	"reflect"
+	"sort"
+	"strconv"
+	"strings"
 	"sync"
 	"sync/atomic"
+	"testing"
 
 	"github.com/algorand/go-algorand/data/basics"
 	"github.com/algorand/go-algorand/protocol"
@@ -18,7 +23,7 @@ import (
 
 // eagrEv is one schedulable event; a list of them is a replayable execution.
 type eagrEv struct {
-	K   string `json:"k"`             // deliver | dup | drop | hold | timeout | fast | loop | verify | crash | catchup | byz
+	K   string `json:"k"`             // deliver | dup | drop | hold | reorder | timeout | fast | tick | loop | verify | crash | catchup | byz
 	N   int    `json:"n"`             // node
 	M   string `json:"m,omitempty"`   // message id (deliver/dup/drop/hold)
 	T   int64  `json:"t,omitempty"`   // virtual time of a timeout (DFS)
@@ -34,7 +39,7 @@ type eagrEv struct {
 
 func (e eagrEv) String() string {
 	switch e.K {
-	case "deliver", "dup", "drop", "hold":
+	case "deliver", "dup", "drop", "hold", "reorder":
 		return fmt.Sprintf("%s(%s->n%d %s)", e.K, e.M, e.N, e.D)
 	case "byz":
 		return fmt.Sprintf("byz(a%d r%d p%d s%d %s ->n%d)", e.Acct, e.R, e.P, e.S, e.V, e.N)
@@ -49,7 +54,7 @@ func (e eagrEv) String() string {
 func (s *eagrSys) findFlight(dst int, id string) int {
 	best := -1
 	for i, f := range s.flight {
-		if f.dst == dst && f.m.ID() == id {
+		if f.dst == dst && f.m.ID() == id && !f.parked {
 			if best < 0 || f.seq < s.flight[best].seq {
 				best = i
 			}
@@ -94,24 +99,37 @@ func (s *eagrSys) apply(e eagrEv, out *eagrOut) error {
 		return fmt.Errorf("bad node %d", e.N)
 	}
 	switch e.K {
-	case "deliver", "dup", "drop", "hold":
+	case "deliver", "dup", "drop", "hold", "reorder":
 		i := s.findFlight(e.N, e.M)
 		if i < 0 {
 			return fmt.Errorf("%v: no such message in flight", e)
 		}
 		f := s.flight[i]
+		s.subStart = false
 		switch e.K {
 		case "drop":
 			s.removeFlight(i)
+			s.devs[eagrDevDrop]++
+			s.fixBarrier()
 			return nil
-		case "hold": // move to the back of the queue
+		case "hold": // held back until after the next tick (delayed past a timeout)
+			s.flight = append([]eagrFlight(nil), s.flight...)
+			s.flight[i].parked = true
+			s.devs[eagrDevHold]++
+			s.fixBarrier()
+			return nil
+		case "reorder": // deferred to the next delivery sub-phase
 			s.removeFlight(i)
 			s.seq++
 			f.seq = s.seq
 			s.flight = append(s.flight, f)
+			s.devs[eagrDevReorder]++
+			s.fixBarrier()
 			return nil
 		case "deliver":
 			s.removeFlight(i)
+		case "dup":
+			s.devs[eagrDevDup]++
 		}
 		if s.nodes[e.N].passive {
 			return nil
@@ -121,8 +139,15 @@ func (s *eagrSys) apply(e eagrEv, out *eagrOut) error {
 		if e.T > s.now {
 			s.now = e.T
 		}
+		if e.K == "fast" && s.cfg.ordered {
+			s.devs[eagrDevFast]++
+		}
 		s.own(e.N).timeout(s, e.K == "fast", out)
 	case "tick": // lock-step explorer: the nodes in mask Idx take their timeout, in node order
+		if e.S != 0 {
+			s.devs[eagrDevSkew]++
+		}
+		s.unpark() // held messages arrive right after the timeouts, before anything the timeouts send
 		for j := range s.nodes {
 			if e.Idx&(1<<uint(j)) != 0 && !s.nodes[j].passive {
 				s.own(j).timeout(s, false, out)
@@ -143,6 +168,7 @@ func (s *eagrSys) apply(e eagrEv, out *eagrOut) error {
 		n.verStep(s, e.Idx, out)
 		n.settle(s, out)
 	case "crash":
+		s.devs[eagrDevCrash]++
 		s.own(e.N).restart(s, out)
 	case "catchup":
 		n := s.nodes[e.N]
@@ -169,11 +195,23 @@ func (s *eagrSys) apply(e eagrEv, out *eagrOut) error {
 			return fmt.Errorf("%v: %v", e, err)
 		}
 		s.stats.byzVotes++
+		s.devs[eagrDevByz]++
 		m := env.intern(&eagrMsg{tag: protocol.AgreementVoteTag, vote: uv})
 		if s.sent != nil {
 			s.sent[m.ID()+string(rune('0'+e.N))] = true
 		}
-		s.own(e.N).deliver(s, m, -1, out)
+		n := s.own(e.N)
+		n.deliver(s, m, -1, out)
+		// non-vacuity: did this vote turn the adversary account into a recorded equivocator?
+		if rr := n.rr.Children[rv.Round]; rr != nil {
+			if pr := rr.Children[rv.Period]; pr != nil {
+				if sr := pr.Children[rv.Step]; sr != nil {
+					if _, ok := sr.VoteTracker.Equivocators[rv.Sender]; ok {
+						s.stats.equivocations++
+					}
+				}
+			}
+		}
 	default:
 		return fmt.Errorf("unknown event kind %q", e.K)
 	}
@@ -182,17 +220,42 @@ func (s *eagrSys) apply(e eagrEv, out *eagrOut) error {
 	return nil
 }
 
+// unpark releases the messages held past the tick (called before the timeouts fire, so that their
+// sequence numbers precede everything the timeouts send; nothing is delivered in between).
+func (s *eagrSys) unpark() {
+	any := false
+	for _, f := range s.flight {
+		if f.parked {
+			any = true
+		}
+	}
+	if !any {
+		return
+	}
+	fs := append([]eagrFlight(nil), s.flight...)
+	sort.SliceStable(fs, func(i, j int) bool { return fs[i].seq < fs[j].seq })
+	for i := range fs {
+		if fs[i].parked {
+			fs[i].parked = false
+			s.seq++
+			fs[i].seq = s.seq
+		}
+	}
+	s.flight = fs
+}
+
 // fixBarrier starts a new delivery sub-phase when no in-flight message of the current one is left.
 func (s *eagrSys) fixBarrier() {
 	if !s.cfg.ordered {
 		return
 	}
 	for _, f := range s.flight {
-		if f.seq <= s.barrier {
+		if f.seq <= s.barrier && !f.parked {
 			return
 		}
 	}
 	s.barrier = s.seq
+	s.subStart = true
 }
 
 // eagrReplay re-executes an event list on a fresh system of the given configuration.
@@ -246,14 +309,19 @@ type eagrBFS struct {
 	catchup    bool  // ledger catch-up events are schedulable
 	maxStates  int64 // cap (reported, exhaustive:false)
 	maxDepth   int   // cap on BFS depth (0: none)
-	// lock-step schedule family (cfg.ordered): execution = alternation of delivery phases and
-	// ticks. In a delivery sub-phase every message in flight at its start is, in send order,
-	// delivered, lost, or (at most maxDefers times per execution) deferred to the next sub-phase;
-	// messages sent meanwhile form the next sub-phase. When nothing is in flight, a tick fires the
-	// timeout of every active node (skew: of any non-empty subset of them).
-	lockstep  bool
-	maxDefers int
-	skew      bool
+	switchAt   int   // frontier size at which the search continues depth-first (default 256)
+	// lock-step schedule family (cfg.ordered): the default schedule is the synchronous one - a
+	// delivery sub-phase hands over, in send order, every message that was in flight when the
+	// sub-phase began (messages sent meanwhile form the next sub-phase); when nothing is in flight
+	// every active node takes its timeout (a "tick"). A deviation is: a message lost (drop),
+	// deferred to the next sub-phase (hold) or delivered twice (dup); a crash-restart of a node at
+	// any decision point; an adversary vote injected at the start of a sub-phase (byz); a tick taken
+	// by a strict subset of the nodes (skew); a fast-recovery timeout (fast). budget[k] bounds the
+	// deviations of kind k per execution, maxDevs their total (-1: unbounded).
+	lockstep bool
+	budget   eagrDevs
+	maxDevs  int
+	byzAccts []int // adversary accounts
 	// onStep is called for every executed transition (pre-state, event, post-state, observations).
 	// path() returns the event list from the initial state up to and including this event.
 	onStep func(pre *eagrSys, e eagrEv, post *eagrSys, out *eagrOut, path func() []eagrEv)
@@ -267,6 +335,7 @@ type eagrBFSResult struct {
 	stats               eagrStats
 	maxPeriod           uint64
 	layerSizes          []int
+	dfsRoots            int
 }
 
 type eagrVisited struct {
@@ -298,18 +367,75 @@ func (b *eagrBFS) enabled(s *eagrSys) []eagrEv {
 		crashes += n.crashes
 	}
 	if b.lockstep {
+		can := func(kind int) bool {
+			return int(s.devs[kind]) < int(b.budget[kind]) && (b.maxDevs < 0 || s.devs.total() < b.maxDevs)
+		}
+		crashEvs := func() {
+			if can(eagrDevCrash) {
+				for j, n := range s.nodes {
+					if !n.passive {
+						evs = append(evs, eagrEv{K: "crash", N: j})
+					}
+				}
+			}
+		}
+		// loopback first (only present when the loopback queue is not modelled as atomic)
+		for j, n := range s.nodes {
+			if len(n.loop) > 0 {
+				evs = append(evs, eagrEv{K: "loop", N: j})
+				crashEvs()
+				return evs
+			}
+		}
 		best := -1
 		for i, f := range s.flight {
-			if f.seq <= s.barrier && (best < 0 || f.seq < s.flight[best].seq) {
+			if !f.parked && f.seq <= s.barrier && (best < 0 || f.seq < s.flight[best].seq) {
 				best = i
+			}
+		}
+		byzEvs := func() {
+			if !s.subStart || !can(eagrDevByz) {
+				return
+			}
+			var vals []string
+			for pv := range s.values {
+				vals = append(vals, eagrPV(pv))
+			}
+			sort.Strings(vals)
+			for j, n := range s.nodes {
+				if n.passive {
+					continue
+				}
+				for _, acct := range b.byzAccts {
+					for _, st := range []step{soft, cert, next} {
+						vs := vals
+						if st == next {
+							vs = append(append([]string(nil), vals...), "bot")
+						}
+						for _, v := range vs {
+							evs = append(evs, eagrEv{K: "byz", N: j, Acct: acct, R: uint64(n.p.Round), P: uint64(n.p.Period), S: uint64(st), V: v})
+						}
+					}
+				}
 			}
 		}
 		if best >= 0 {
 			f := s.flight[best]
-			evs = append(evs, eagrEv{K: "deliver", N: f.dst, M: f.m.ID(), D: f.m.desc}, eagrEv{K: "drop", N: f.dst, M: f.m.ID(), D: f.m.desc})
-			if s.defers < b.maxDefers {
+			evs = append(evs, eagrEv{K: "deliver", N: f.dst, M: f.m.ID(), D: f.m.desc})
+			if can(eagrDevDrop) {
+				evs = append(evs, eagrEv{K: "drop", N: f.dst, M: f.m.ID(), D: f.m.desc})
+			}
+			if can(eagrDevHold) {
 				evs = append(evs, eagrEv{K: "hold", N: f.dst, M: f.m.ID(), D: f.m.desc})
 			}
+			if can(eagrDevReorder) {
+				evs = append(evs, eagrEv{K: "reorder", N: f.dst, M: f.m.ID(), D: f.m.desc})
+			}
+			if can(eagrDevDup) {
+				evs = append(evs, eagrEv{K: "dup", N: f.dst, M: f.m.ID(), D: f.m.desc})
+			}
+			crashEvs()
+			byzEvs()
 			return evs
 		}
 		mask := 0
@@ -319,21 +445,24 @@ func (b *eagrBFS) enabled(s *eagrSys) []eagrEv {
 			}
 		}
 		if mask != 0 {
-			if b.skew {
-				for sub := 1; sub <= mask; sub++ {
+			evs = append(evs, eagrEv{K: "tick", Idx: mask})
+			if can(eagrDevSkew) {
+				for sub := 1; sub < mask; sub++ {
 					if sub&mask == sub {
-						evs = append(evs, eagrEv{K: "tick", Idx: sub})
+						evs = append(evs, eagrEv{K: "tick", Idx: sub, S: 1})
 					}
 				}
-			} else {
-				evs = append(evs, eagrEv{K: "tick", Idx: mask})
 			}
 		}
-		for j, n := range s.nodes {
-			if !n.passive && crashes < b.maxCrashes {
-				evs = append(evs, eagrEv{K: "crash", N: j})
+		if can(eagrDevFast) {
+			for j, n := range s.nodes {
+				if !n.passive {
+					evs = append(evs, eagrEv{K: "fast", N: j})
+				}
 			}
 		}
+		crashEvs()
+		byzEvs()
 		return evs
 	}
 	for j, n := range s.nodes {
@@ -368,12 +497,19 @@ func (b *eagrBFS) enabled(s *eagrSys) []eagrEv {
 	return evs
 }
 
+var eagrDebugDepth = func() int { n, _ := strconv.Atoi(os.Getenv("EAGR_DEBUG_DEPTH")); return n }()
+var eagrDebugOnce atomic.Bool
+
 type eagrBFSState struct {
 	sys  *eagrSys
 	path *eagrPath
 }
 
-// run explores every state reachable under the bounds, layer by layer, on all cores.
+// run explores every state reachable under the bounds. It proceeds breadth-first (layer by layer,
+// in parallel) until the frontier holds at least switchAt states, then continues depth-first from
+// every frontier state in parallel with the same shared visited set: the set of states visited is
+// the same as for a pure BFS (all reachable states, each expanded exactly once) but only the DFS
+// stacks are kept alive, not a frontier of hundreds of thousands of live node objects.
 func (b *eagrBFS) run(r *ve.Run) eagrBFSResult {
 	res := eagrBFSResult{exhaustive: true}
 	var visited eagrVisited
@@ -386,53 +522,89 @@ func (b *eagrBFS) run(r *ve.Run) eagrBFSResult {
 		b.onStep(init, eagrEv{K: "boot"}, init, out0, func() []eagrEv { return nil })
 	}
 	visited.add(init.key())
-	res.states = 1
+	var states, transitions atomic.Int64
+	states.Store(1)
 	frontier := []eagrBFSState{{sys: init, path: root}}
-	var transitions atomic.Int64
 	var statsMu sync.Mutex
-	var maxPeriod atomic.Uint64
-	for depth := 0; len(frontier) > 0; depth++ {
-		res.depth = depth
+	var maxPeriod, maxDepth atomic.Uint64
+	var stop atomic.Bool
+	var capMu sync.Mutex
+	capped := func(why string) {
+		capMu.Lock()
+		if res.exhaustive {
+			res.exhaustive = false
+			res.capReason = why
+		}
+		capMu.Unlock()
+		stop.Store(true)
+	}
+	switchAt := b.switchAt
+	if switchAt == 0 {
+		switchAt = 256
+	}
+	// expand runs every enabled event of st; fresh successors are handed to visit.
+	expand := func(st eagrBFSState, depth int, local *eagrStats, visit func(eagrBFSState)) {
+		for _, e := range b.enabled(st.sys) {
+			if stop.Load() {
+				return
+			}
+			t := st.sys.clone()
+			t.stats = eagrStats{}
+			out := &eagrOut{}
+			if err := t.apply(e, out); err != nil {
+				out.panicMsg = "harness: " + err.Error()
+			}
+			n := transitions.Add(1)
+			local.add(&t.stats)
+			np := &eagrPath{parent: st.path, ev: e, depth: depth + 1}
+			if b.onStep != nil {
+				b.onStep(st.sys, e, t, out, np.list)
+			}
+			if out.panicMsg != "" {
+				continue // reported by onStep; the successor state is not meaningful
+			}
+			for _, nd := range t.nodes {
+				if uint64(nd.p.Period) > maxPeriod.Load() && !nd.passive {
+					maxPeriod.Store(uint64(nd.p.Period))
+				}
+			}
+			if n&255 == 0 {
+				if r.OutOfTime() {
+					capped(fmt.Sprintf("time budget ended after %d transitions", n))
+				}
+				if r.Violations() > 0 {
+					capped("stopped after a violation")
+				}
+			}
+			if eagrDebugDepth > 0 && depth+1 == eagrDebugDepth && eagrDebugOnce.CompareAndSwap(false, true) {
+				for i, x := range np.list() {
+					fmt.Printf("DEBUGPATH %3d %v\n", i, x)
+				}
+				capped("debug depth reached")
+			}
+			if visited.add(t.key()) {
+				ns := states.Add(1)
+				if uint64(depth+1) > maxDepth.Load() {
+					maxDepth.Store(uint64(depth + 1))
+				}
+				if b.maxStates > 0 && ns >= b.maxStates {
+					capped(fmt.Sprintf("state cap %d reached", b.maxStates))
+				}
+				visit(eagrBFSState{sys: t, path: np})
+			}
+		}
+	}
+	depth := 0
+	for ; len(frontier) > 0 && len(frontier) < switchAt && !stop.Load(); depth++ {
 		res.layerSizes = append(res.layerSizes, len(frontier))
 		if b.maxDepth > 0 && depth >= b.maxDepth {
-			res.exhaustive = false
-			res.capReason = fmt.Sprintf("depth cap %d reached with %d frontier states", b.maxDepth, len(frontier))
-			break
-		}
-		if b.maxStates > 0 && res.states >= b.maxStates {
-			res.exhaustive = false
-			res.capReason = fmt.Sprintf("state cap %d reached at depth %d with %d frontier states", b.maxStates, depth, len(frontier))
+			capped(fmt.Sprintf("depth cap %d reached with %d frontier states", b.maxDepth, len(frontier)))
 			break
 		}
 		next := make([][]eagrBFSState, len(frontier))
-		done := r.ParallelFor(len(frontier), func(i int) {
-			st := frontier[i]
+		r.ParallelFor(len(frontier), func(i int) {
 			var local eagrStats
-			for _, e := range b.enabled(st.sys) {
-				t := st.sys.clone()
-				t.stats = eagrStats{}
-				out := &eagrOut{}
-				if err := t.apply(e, out); err != nil {
-					out.panicMsg = "harness: " + err.Error()
-				}
-				transitions.Add(1)
-				local.add(&t.stats)
-				np := &eagrPath{parent: st.path, ev: e, depth: depth + 1}
-				if b.onStep != nil {
-					b.onStep(st.sys, e, t, out, np.list)
-				}
-				if out.panicMsg != "" {
-					continue // reported by onStep; the successor state is not meaningful
-				}
-				for _, n := range t.nodes {
-					if uint64(n.p.Period) > maxPeriod.Load() {
-						maxPeriod.Store(uint64(n.p.Period))
-					}
-				}
-				if visited.add(t.key()) {
-					next[i] = append(next[i], eagrBFSState{sys: t, path: np})
-				}
-			}
+			expand(frontier[i], depth, &local, func(c eagrBFSState) { next[i] = append(next[i], c) })
 			statsMu.Lock()
 			res.stats.add(&local)
 			statsMu.Unlock()
@@ -440,23 +612,38 @@ func (b *eagrBFS) run(r *ve.Run) eagrBFSResult {
 		var nf []eagrBFSState
 		for i := range next {
 			nf = append(nf, next[i]...)
-			next[i] = nil
-		}
-		res.states += int64(len(nf))
-		if int(done) < len(frontier) {
-			res.exhaustive = false
-			res.capReason = fmt.Sprintf("time budget ended inside depth %d", depth)
-			break
-		}
-		if r.Violations() > 0 {
-			res.exhaustive = false
-			res.capReason = "stopped after a violation"
-			break
 		}
 		frontier = nf
+		if r.Violations() > 0 {
+			capped("stopped after a violation")
+		}
 	}
+	if len(frontier) > 0 && !stop.Load() {
+		res.layerSizes = append(res.layerSizes, len(frontier))
+		res.dfsRoots = len(frontier)
+		var dfs func(st eagrBFSState, d int, local *eagrStats)
+		dfs = func(st eagrBFSState, d int, local *eagrStats) {
+			if b.maxDepth > 0 && d >= b.maxDepth {
+				capped(fmt.Sprintf("depth cap %d reached", b.maxDepth))
+				return
+			}
+			expand(st, d, local, func(c eagrBFSState) { dfs(c, d+1, local) })
+		}
+		done := r.ParallelFor(len(frontier), func(i int) {
+			var local eagrStats
+			dfs(frontier[i], depth, &local)
+			statsMu.Lock()
+			res.stats.add(&local)
+			statsMu.Unlock()
+		})
+		if int(done) < len(frontier) {
+			capped("time budget ended")
+		}
+	}
+	res.states = states.Load()
 	res.transitions = transitions.Load()
 	res.maxPeriod = maxPeriod.Load()
+	res.depth = int(maxDepth.Load())
 	return res
 }
 
@@ -522,13 +709,17 @@ func eagrDropOldRounds(rr *rootRouter, p *player) {
 	}
 }
 
+var eagrStateDiffOpts = &eagrDiffOpts{skip: map[string]string{
+	"rootRouter.root": "", "rootRouter.proposalRoot": "", "rootRouter.voteRoot": "",
+	"roundRouter.proposalRoot": "", "roundRouter.voteRoot": "",
+	"periodRouter.proposalRoot": "", "periodRouter.voteRoot": "",
+	"stepRouter.voteRoot": "",
+}}
+
+var eagrActionDiffOpts = &eagrDiffOpts{skip: eagrEphemeral}
+
 func eagrStateDiff(pa *player, ra *rootRouter, pb *player, rb *rootRouter) string {
-	o := &eagrDiffOpts{skip: map[string]string{
-		"rootRouter.root": "", "rootRouter.proposalRoot": "", "rootRouter.voteRoot": "",
-		"roundRouter.proposalRoot": "", "roundRouter.voteRoot": "",
-		"periodRouter.proposalRoot": "", "periodRouter.voteRoot": "",
-		"stepRouter.voteRoot": "",
-	}}
+	o := eagrStateDiffOpts
 	if d := eagrDiff("player", reflect.ValueOf(pa).Elem(), reflect.ValueOf(pb).Elem(), o); d != "" {
 		return d
 	}
@@ -646,17 +837,19 @@ func (d *eagrDiffer) compare(s *eagrSys, n *eagrNode, e externalEvent, live []ac
 		return fmt.Sprintf("event %s: restored node emits %v, uncrashed node emits %v", eagrEvStr(e), kb, ka)
 	}
 	eagrDropOldRounds(&sh.ref.rr, &sh.ref.p)
+	eagrDropOldRounds(&sh.rr, &sh.p)
 	ra := encode(eagrClock{}, sh.ref.rr, sh.ref.p, nil, false)
 	rb := encode(eagrClock{}, sh.rr, sh.p, nil, false)
+	df := eagrStateDiff(&sh.ref.p, &sh.ref.rr, &sh.p, &sh.rr)
 	if !bytes.Equal(ra, rb) {
-		df := eagrStateDiff(&sh.ref.p, &sh.ref.rr, &sh.p, &sh.rr)
 		return fmt.Sprintf("event %s: successor of the restored node encodes differently from the successor of the uncrashed node (%s)", eagrEvStr(e), df)
 	}
-	if df := eagrStateDiff(&sh.ref.p, &sh.ref.rr, &sh.p, &sh.rr); df != "" {
+	if df != "" {
 		return fmt.Sprintf("event %s: successor states differ: %s", eagrEvStr(e), df)
 	}
 	// pending actions: the list produced by the live node must survive encode/decode
-	if len(live) > 0 {
+	// (only lists containing a persistent action are ever written by Service.persistState)
+	if persistent(live) {
 		d.actTrips.Add(1)
 		log := serviceLogger{s.cfg.env.log}
 		raw := encode(eagrClock{zero: n.zero}, n.rr, n.p, live, false)
@@ -667,7 +860,7 @@ func (d *eagrDiffer) compare(s *eagrSys, n *eagrNode, e externalEvent, live []ac
 		if len(a2) != len(live) {
 			return fmt.Sprintf("pending actions: %d persisted, %d restored", len(live), len(a2))
 		}
-		o := &eagrDiffOpts{skip: eagrEphemeral}
+		o := eagrActionDiffOpts
 		for i := range live {
 			x := reflect.New(reflect.TypeOf(live[i])).Elem()
 			x.Set(reflect.ValueOf(live[i]))
@@ -688,4 +881,200 @@ func (d *eagrDiffer) compare(s *eagrSys, n *eagrNode, e externalEvent, live []ac
 func eagrJSON(evs []eagrEv) string {
 	b, _ := json.Marshal(evs)
 	return string(b)
+}
+
+// ---------------------------------------------------------------------------------------------
+// standard configurations and the check runner shared by C01 / C03 / C07 / C02(i)
+
+func eagrBudget(drop, hold, dup, crash, byz, skew, fast int8) eagrDevs {
+	var d eagrDevs
+	d[eagrDevDrop], d[eagrDevHold], d[eagrDevDup], d[eagrDevCrash], d[eagrDevByz], d[eagrDevSkew], d[eagrDevFast] = drop, hold, dup, crash, byz, skew, fast
+	return d
+}
+
+func (d eagrDevs) with(kind int, n int8) eagrDevs {
+	d[kind] = n
+	return d
+}
+
+// eagrHonest3 builds a configuration of 3 honest single-account nodes, threshold 2 of 3.
+func eagrHonest3(name string, proposers, noProp []bool, maxRound basics.Round, maxPeriod period) *eagrBFS {
+	env := eagrGetEnv(3, 2)
+	cfg := &eagrCfg{env: env, nNodes: 3, atomicVerify: true, atomicLoop: true, flightSet: true,
+		maxRound: maxRound, maxPeriod: maxPeriod, proposers: proposers, noProposalTo: noProp}
+	return &eagrBFS{name: name, cfg: cfg, maxStep: next}
+}
+
+// eagrByz4 builds a configuration of 3 honest nodes + 1 adversary account, threshold 3 of 4.
+func eagrByz4(name string, proposers []bool, maxRound basics.Round, maxPeriod period) *eagrBFS {
+	env := eagrGetEnv(4, 3)
+	cfg := &eagrCfg{env: env, nNodes: 3, atomicVerify: true, atomicLoop: true, flightSet: true,
+		maxRound: maxRound, maxPeriod: maxPeriod, proposers: proposers, trackValues: true, forward: true}
+	return &eagrBFS{name: name, cfg: cfg, maxStep: next, byzAccts: []int{3}}
+}
+
+// lock turns b into a deviation-bounded exploration around the synchronous schedule.
+func (b *eagrBFS) lock(budget eagrDevs, maxDevs int, maxStates int64) *eagrBFS {
+	b.cfg.ordered = true
+	b.lockstep, b.budget, b.maxDevs, b.maxStates = true, budget, maxDevs, maxStates
+	return b
+}
+
+func (b *eagrBFS) describe() string {
+	c := b.cfg
+	var sb strings.Builder
+	fmt.Fprintf(&sb, "%d honest nodes, %d accounts of stake 1, threshold %d for every step, rounds<=%d, periods<=%d, timeouts up to step %d", c.nNodes, c.env.n, c.env.threshold, c.maxRound, c.maxPeriod, b.maxStep)
+	if c.proposers != nil {
+		fmt.Fprintf(&sb, ", period-0 proposers %v", c.proposers)
+	}
+	if c.noProposalTo != nil {
+		fmt.Fprintf(&sb, ", period-0 payloads never reach %v", c.noProposalTo)
+	}
+	if b.lockstep {
+		fmt.Fprintf(&sb, "; ALL executions that depart from the synchronous schedule by at most %d deviations (per kind:", b.maxDevs)
+		for k, n := range b.budget {
+			if n > 0 {
+				fmt.Fprintf(&sb, " %s<=%d", eagrDevNames[k], n)
+			}
+		}
+		sb.WriteString(")")
+	} else {
+		fmt.Fprintf(&sb, "; full asynchronous reachability (any delivery order, never-delivered = lost, any-time timeouts, crashes<=%d), state cap %d", b.maxCrashes, b.maxStates)
+	}
+	return sb.String()
+}
+
+type eagrReplayFile struct {
+	Config string   `json:"config"`
+	Events []eagrEv `json:"events"`
+}
+
+// eagrCheck is one property check built on the explorers.
+type eagrCheck struct {
+	id      string
+	level   string
+	configs []*eagrBFS
+	// oracle is evaluated on every executed transition; it reports violations itself.
+	oracle func(r *ve.Run, b *eagrBFS, pre *eagrSys, e eagrEv, post *eagrSys, out *eagrOut, path func() []eagrEv)
+	rule   string
+	assume []string
+	finish func(r *ve.Run, total *eagrStats)
+}
+
+func eagrReplayOf(b *eagrBFS, path func() []eagrEv) any {
+	return map[string]any{"engine": "E-AGR", "config": b.name, "events": path()}
+}
+
+func eagrRunCheck(t *testing.T, c *eagrCheck) {
+	r := ve.NewRun(c.id, c.level)
+	if raw := r.ReplayRequest(); raw != nil {
+		var rp eagrReplayFile
+		if err := json.Unmarshal(raw, &rp); err != nil {
+			t.Fatalf("bad replay file: %v", err)
+		}
+		var b *eagrBFS
+		for _, x := range c.configs {
+			if x.name == rp.Config {
+				b = x
+			}
+		}
+		if b == nil {
+			t.Fatalf("replay: unknown configuration %q", rp.Config)
+		}
+		pre := eagrNewSys(b.cfg)
+		_, err := eagrReplay(b.cfg, rp.Events, func(i int, e eagrEv, s *eagrSys, out *eagrOut) bool {
+			fmt.Printf("REPLAY %3d %v\n", i, e)
+			for _, sub := range out.subs {
+				fmt.Printf("        n%d %-64s -> %v\n", sub.node, sub.event, sub.acts)
+			}
+			for _, cm := range out.commits {
+				fmt.Printf("        COMMIT node %d round %d period %d block %s\n", cm.node, cm.act.Certificate.Round, cm.period, eagrPV(cm.act.Certificate.Proposal))
+			}
+			c.oracle(r, b, pre, e, s, out, func() []eagrEv { return rp.Events[:i+1] })
+			pre = s.deepClone()
+			return true
+		})
+		if err != nil {
+			fmt.Printf("REPLAY-DIVERGED %v (the recorded execution does not exist on this tree)\n", err)
+		}
+		if r.Finish(ve.Coverage{Rule: "replay of " + rp.Config, Exhaustive: false}) > 0 {
+			t.Fatal("violations")
+		}
+		return
+	}
+	var cov ve.Coverage
+	cov.Exhaustive = true
+	var total eagrStats
+	var rules []string
+	for _, b := range c.configs {
+		b := b
+		var sampled atomic.Int64
+		b.onStep = func(pre *eagrSys, e eagrEv, post *eagrSys, out *eagrOut, path func() []eagrEv) {
+			r.Eval()
+			c.oracle(r, b, pre, e, post, out, path)
+			for _, cm := range out.commits {
+				r.Class(fmt.Sprintf("%s/commit/n%d/p%d", b.name, cm.node, cm.period))
+				if sampled.Add(1) <= 2 {
+					r.Sample(map[string]any{"config": b.name, "commit": fmt.Sprintf("node %d round %d period %d", cm.node, cm.act.Certificate.Round, cm.period), "events": fmt.Sprint(path())})
+				}
+			}
+		}
+		res := b.run(r)
+		cov.States += res.states
+		cov.Transitions += res.transitions
+		cov.Traces += res.transitions
+		if !res.exhaustive {
+			cov.Exhaustive = false
+			r.Capped()
+		}
+		total.add(&res.stats)
+		st := res.stats
+		r.Note("%s: states=%d transitions=%d maxdepth=%d exhaustive=%v %s | commits=%d period>0 steps=%d (max period %d) timeouts=%d deliveries=%d attests=%d persists=%d crashes=%d (restored %d, fresh %d) adversary votes=%d (equivocations recorded %d) bundles sent=%d",
+			b.name, res.states, res.transitions, res.depth, res.exhaustive, res.capReason, st.commits, st.period1, res.maxPeriod, st.timeouts, st.deliveries, st.attests, st.persists, st.crashes, st.restoresFromDisk, st.restoresFresh, st.byzVotes, st.equivocations, st.bundlesSent)
+		fmt.Printf("%s %s: states=%d transitions=%d depth=%d exhaustive=%v %s commits=%d maxPeriod=%d crashes=%d byz=%d eq=%d\n", c.id, b.name, res.states, res.transitions, res.depth, res.exhaustive, res.capReason, st.commits, res.maxPeriod, st.crashes, st.byzVotes, st.equivocations)
+		rules = append(rules, "["+b.name+"] "+b.describe())
+		if r.Violations() > 0 {
+			break
+		}
+	}
+	r.Set("commits_observed", total.commits)
+	r.Set("submitTop_calls", total.submits)
+	r.Set("period_gt0_steps", total.period1)
+	r.Set("crash_restarts", total.crashes)
+	r.Set("restores_from_disk", total.restoresFromDisk)
+	r.Set("adversary_votes", total.byzVotes)
+	r.Set("equivocations_recorded", total.equivocations)
+	r.Set("timeouts", total.timeouts)
+	r.Set("deliveries", total.deliveries)
+	if c.finish != nil {
+		c.finish(r, &total)
+	}
+	for _, a := range c.assume {
+		r.Assume(a)
+	}
+	cov.Rule = c.rule + " Configurations: " + strings.Join(rules, " || ")
+	if r.Finish(cov) > 0 {
+		t.Fatal("violations")
+	}
+}
+
+// eagrSafetyConfigs returns the configurations explored by the safety checks (C01, C03). scale 0 =
+// reduced (C07's differential costs a multiple per transition), 1 = quick, 2 = thorough.
+func eagrSafetyConfigs(scale int) []*eagrBFS {
+	p1 := []bool{true, false, false}
+	cl := []bool{false, false, true}
+	k := int8(scale)
+	cap := []int64{150000, 600000, 6000000}[scale]
+	cfgs := []*eagrBFS{
+		eagrHonest3("sync-1prop", p1, nil, 1, 1).lock(eagrBudget(2+k, 2+k, 0, 0, 0, 0, 0), int(2+k), cap),
+		eagrHonest3("sync-1prop-latepayload", p1, cl, 1, 1).lock(eagrBudget(2+k, 2+k, 0, 0, 0, 0, 0), int(2+k), cap),
+		eagrHonest3("sync-3prop", nil, nil, 1, 1).lock(eagrBudget(1+k, 1+k, 0, 0, 0, 0, 0), int(1+k), cap),
+		eagrHonest3("sync-3prop-faults", nil, nil, 1, 1).lock(eagrBudget(2, 1, 1, 1, 0, 1, 1).with(eagrDevReorder, 1), int(1+k), cap),
+		eagrHonest3("sync-3prop-2rounds", nil, nil, 2, 1).lock(eagrBudget(2, 2, 0, 1, 0, 0, 0), int(1+k), cap),
+		eagrByz4("byz-3of4", nil, 1, 1).lock(eagrBudget(2, 1, 0, 0, 2, 0, 0), int(1+k), cap),
+	}
+	async := eagrHonest3("async-1prop", p1, nil, 1, 1)
+	async.maxCrashes = 1
+	async.maxStates = []int64{5000, 30000, 1000000}[scale]
+	return append(cfgs, async)
 }
